@@ -27,17 +27,33 @@ def make_slurry(sp, Dp, max_index=100):
     return s
 
 
-def make_pipeline(rng, secs, sp, limited=None):
+def make_pipeline(rng, secs, sp, limited=None, record=None):
+    """record: a dict that receives the random choices made here (pump of every 'U' section, the slurry's own Dp), so
+    that a reported input replays exactly; when it already holds them (a replay) they are used instead of the rng"""
     lst = []
+    names = list(record.get('pumps', [])) if record is not None else []
+    chosen = []
     for s in secs:
         if s[0] == 'P':
             lst.append(PipeObj.Pipe(f'pipe{len(lst)}', s[1], s[2], s[3], s[4]))
         else:
-            p = copy.copy(rng.choice(PUMPS))
+            if len(chosen) < len(names):
+                src = next(x for x in PUMPS if x.name == names[len(chosen)])
+            else:
+                src = rng.choice(PUMPS)
+            chosen.append(src.name)
+            p = copy.copy(src)
             if limited:
                 p.limited = limited
             lst.append(p)
-    slurry = make_slurry(sp, rng.choice([x[1] for x in secs if x[0] == 'P']))
+    if record is not None and 'slurry_Dp' in record:
+        dp = record['slurry_Dp']
+    else:
+        dp = rng.choice([x[1] for x in secs if x[0] == 'P'])
+    if record is not None:
+        record['pumps'] = chosen
+        record['slurry_Dp'] = dp
+    slurry = make_slurry(sp, dp)
     return PipeObj.Pipeline(pipe_list=lst, slurry=slurry)
 
 
